@@ -298,8 +298,12 @@ func probe(r *hxlib.Run) {
 }
 
 func main() {
-	if os.Getenv("HX_C18_PROBE") != "" {
-		probeChild()
+	if v := os.Getenv("HX_C18_PROBE"); v != "" {
+		if v == "values" {
+			valuesChild()
+		} else {
+			probeChild()
+		}
 		return
 	}
 	r := hxlib.Start("C18", "a forced schedule or a free-running configuration; non-trivial when a task ends in error/panic or Shutdown meets a non-empty queue; distinct by configuration and op list")
@@ -326,6 +330,10 @@ func main() {
 			}
 		case "probe":
 			probe(r)
+		case "probe-values":
+			probeValues(r)
+		case "backlog":
+			runBacklog(r, c, tmo)
 		default:
 			runStress(r, c, tmo)
 		}
@@ -333,6 +341,16 @@ func main() {
 		return
 	}
 	probe(r)
+	if panicOK {
+		probeValues(r) // awkward panic values and error values, in a child process of their own
+	}
+	if r.Search {
+		searchLegs(r, tmo)
+		if r.Failed() {
+			r.Note("the search legs found a failing input; the ordinary generators were not run again")
+			return
+		}
+	}
 	// ---- leg 1: forced schedules --------------------------------------------------------------
 	bad := 0
 	fixed := [][2]int{{1, 0}, {1, 1}, {1, 4}, {2, 0}, {2, 1}, {3, 2}, {0, 2}, {-1, 1}, {4, 8}, {8, 64}}
